@@ -87,12 +87,15 @@ structure Sites where
   /-- mask.go Field/Int/Str, isAll branch, black list: answers `self.hasChild()`, so a final '*' rejects nothing;
   repaired: answers `self.all != nil && self.all.hasChild()` -/
   blackStar : Bool
+  /-- path.go GetPath checks `cur.typ` against the step kind even on an isAll node (whose type tag, after a struct
+  '*', is the FIRST field's): `$.*` then PathInMask("$.s.a") is false; repaired: the checks apply to non-all nodes only -/
+  gpTypAll : Bool
   deriving DecidableEq, Repr
 
 /-- the tree this model was written against -/
-def Sites.asFound : Sites := ⟨true, true, true, true, true, true, true, true, true, true, true, true⟩
+def Sites.asFound : Sites := ⟨true, true, true, true, true, true, true, true, true, true, true, true, true⟩
 /-- every proposed repair applied -/
-def Sites.repaired : Sites := ⟨false, false, false, false, false, false, false, false, false, false, false, false⟩
+def Sites.repaired : Sites := ⟨false, false, false, false, false, false, false, false, false, false, false, false, false⟩
 
 /-! ## panic sites (one definition each) -/
 
@@ -833,7 +836,7 @@ def gpLoop (cfg : Sites) (sch : Schema) : Nat → MaskOpt → MaskOpt → Bytes 
             match sch.structOf desc with
             | none => no
             | some fs =>
-              if c.typ != .struct then no else
+              if (cfg.gpTypAll || !c.isAll) && c.typ != .struct then no else
               match next cfg rest with
               | .err _ => no
               | .panic s => .panic s
@@ -864,7 +867,7 @@ def gpLoop (cfg : Sites) (sch : Schema) : Nat → MaskOpt → MaskOpt → Bytes 
           | .indexL =>
             match desc with
             | .list e =>
-              if c.typ != .list then no else do
+              if (cfg.gpTypAll || !c.isAll) && c.typ != .list then no else do
               match ← gpIndex cfg c fuel rest c.all with
               | none => no
               | some (nxt, rest') => gpLoop cfg sch fuel cur nxt rest' (sch.gpDesc cfg e)
@@ -872,7 +875,7 @@ def gpLoop (cfg : Sites) (sch : Schema) : Nat → MaskOpt → MaskOpt → Bytes 
           | .mapL =>
             match desc with
             | .map _ v =>
-              if c.typ != .intMap && c.typ != .strMap && c.typ != .scalar then no else do
+              if (cfg.gpTypAll || !c.isAll) && (c.typ != .intMap && c.typ != .strMap && c.typ != .scalar) then no else do
               match ← gpKeys cfg c fuel rest c.all with
               | none => no
               | some (nxt, rest') => gpLoop cfg sch fuel cur nxt rest' (sch.gpDesc cfg v)
